@@ -111,6 +111,46 @@ Proof.
     unfold second in *. split; [|left]; Z.div_mod_to_equations; nia.
 Qed.
 
+(** * Refreshed renewal info ([Config.updateARI], [refresh_ari]) *)
+
+Lemma optz_eqb_eq : forall a b, optz_eqb a b = true <-> a = b.
+Proof.
+  intros [x|] [y|]; cbn [optz_eqb]; split; intros H; try discriminate; try reflexivity.
+  - apply Z.eqb_eq in H. congruence.
+  - inversion H. apply Z.eqb_refl.
+Qed.
+
+Lemma same_window_eq : forall a b, same_window a b = true <-> wstart a = wstart b /\ wend a = wend b.
+Proof. intros a b. unfold same_window. rewrite andb_true_iff, !optz_eqb_eq. tauto. Qed.
+
+(** the refreshed info always carries the window the CA answered with *)
+Lemma refresh_window : forall old fresh,
+  wstart (refresh_ari old fresh) = wstart fresh /\ wend (refresh_ari old fresh) = wend fresh.
+Proof. intros old fresh. unfold refresh_ari. destruct (same_window fresh old && has_sel old); split; reflexivity. Qed.
+
+(** the old selected time survives exactly when the window is unchanged (and there was one) *)
+Lemma refresh_sel : forall old fresh,
+  sel (refresh_ari old fresh) = if same_window fresh old && has_sel old then sel old else sel fresh.
+Proof. intros old fresh. unfold refresh_ari. destruct (same_window fresh old && has_sel old); reflexivity. Qed.
+
+(** well-formedness is preserved: a selected time is only ever kept together with its own window *)
+Theorem refresh_wf : forall old fresh, ari_wfb old = true -> ari_wfb fresh = true ->
+  ari_wfb (refresh_ari old fresh) = true.
+Proof.
+  intros old fresh Ho Hf. unfold refresh_ari.
+  destruct (same_window fresh old && has_sel old) eqn:E; [|exact Hf].
+  apply andb_true_iff in E. destruct E as [Hw _]. apply same_window_eq in Hw. destruct Hw as [Hs He].
+  unfold ari_wfb in *. cbn [sel wstart wend]. rewrite Hs, He. exact Ho.
+Qed.
+
+Theorem refresh_ok_of_model : forall old fresh, refresh_ok old fresh (refresh_ari old fresh) = true.
+Proof.
+  intros old fresh. unfold refresh_ok. apply andb_true_iff. split.
+  - apply same_window_eq. apply refresh_window.
+  - destruct (ari_wfb old) eqn:Ho; [|reflexivity]. destruct (ari_wfb fresh) eqn:Hf; [|reflexivity].
+    cbn [andb negb orb]. apply refresh_wf; assumption.
+Qed.
+
 Section WithScale.
   Variable scale : Z -> ratio -> Z.
 
@@ -404,6 +444,50 @@ Section WithScale.
       rewrite E in Hsel. inversion Hsel. subst. lia.
   Qed.
 
+  (** the same for any WELL-FORMED renewal info (selected time unset, or inside the window it comes
+      with): a window that starts at least one interval from now never triggers an immediate
+      renewal, unless a validity-based rule fires *)
+  Theorem wf_future_window_never_immediate : forall i rnd now ws we, wf i -> admissible i rnd ->
+    ari_wfb (ari i) = true -> wstart (ari i) = Some ws -> wend (ari i) = Some we ->
+    now + interval i <= ws ->
+    snd (eff_ratio (cfg_ratio i)) * remaining i now >=
+      fst (eff_ratio (cfg_ratio i)) * lifetime i + snd (eff_ratio (cfg_ratio i)) * eps (lifetime i) ->
+    20 * remaining i now >= lifetime i + 20 * eps (lifetime i) ->
+    remaining i now >= 5 * interval i ->
+    decide i rnd now = Wait.
+  Proof.
+    intros i rnd now ws we Hwf Ha Hwfa Hws Hwe Hfut Hc H20 H5.
+    destruct (sel (ari i)) as [s0|] eqn:Hs.
+    - destruct (wf_facts i Hwf) as (Hi & HL & Hr).
+      apply wait_when_nothing_due; try assumption.
+      + pose proof (eps_pos (lifetime i) HL). lia.
+      + intros s Hd Hsel. split; [|exact H20].
+        unfold select in Hsel. rewrite Hs in Hsel. inversion Hsel. subst s0.
+        unfold ari_wfb in Hwfa. rewrite Hs, Hws, Hwe in Hwfa. lia.
+    - eapply future_window_never_immediate; eassumption.
+  Qed.
+
+  (** ... hence for the info [updateARI] leaves behind: old info and the CA's answer well-formed, the
+      CA's window starts at least one interval from now => wait, whatever the old selected time was *)
+  Theorem refreshed_future_window_never_immediate : forall i old fresh rnd now ws we, wf i ->
+    ari_wfb old = true -> ari_wfb fresh = true -> wstart fresh = Some ws -> wend fresh = Some we ->
+    admissible (with_ari i (refresh_ari old fresh)) rnd ->
+    now + interval i <= ws ->
+    snd (eff_ratio (cfg_ratio i)) * remaining i now >=
+      fst (eff_ratio (cfg_ratio i)) * lifetime i + snd (eff_ratio (cfg_ratio i)) * eps (lifetime i) ->
+    20 * remaining i now >= lifetime i + 20 * eps (lifetime i) ->
+    remaining i now >= 5 * interval i ->
+    decide (with_ari i (refresh_ari old fresh)) rnd now = Wait.
+  Proof.
+    intros i old fresh rnd now ws we Hwf Ho Hf Hws Hwe Ha Hfut Hc H20 H5.
+    destruct (refresh_window old fresh) as [Es Ee].
+    apply (wf_future_window_never_immediate (with_ari i (refresh_ari old fresh)) rnd now ws we);
+      try assumption.
+    - cbn [with_ari ari]. apply refresh_wf; assumption.
+    - cbn [with_ari ari]. congruence.
+    - cbn [with_ari ari]. congruence.
+  Qed.
+
   (** * The boolean specification holds of the model *)
 
   Lemma must_renew_sound : forall i rnd now, wf i -> admissible i rnd ->
@@ -477,3 +561,17 @@ Proof.
   exists 0, 100000, (30 * 86400 * second), (30 * 86400 * second + second).
   vm_compute. repeat split; congruence.
 Qed.
+
+(** * The well-formedness hypothesis is needed: a stale selected time that precedes a window the CA
+      moved later makes a certificate 10 days into a 90-day lifetime due 20 days before its window *)
+Definition stale_inputs : inputs :=
+  Inputs 0 (90 * 86400 * second) (600 * second) (1, 3) false
+         (Ari (Some (8 * 86400 * second)) (Some (30 * 86400 * second)) (Some (32 * 86400 * second))).
+
+Lemma stale_selected_time_renews :
+  ari_wfb (ari stale_inputs) = false /\ wf stale_inputs /\ admissible stale_inputs 0 /\
+  decide scale_floor stale_inputs 0 (10 * 86400 * second) = Renew /\
+  decide scale_floor (with_ari stale_inputs
+      (refresh_ari (Ari (Some (8 * 86400 * second)) (Some (7 * 86400 * second)) (Some (9 * 86400 * second)))
+                   (Ari None (Some (30 * 86400 * second)) (Some (32 * 86400 * second))))) 0 (10 * 86400 * second) = Wait.
+Proof. vm_compute. repeat split; congruence. Qed.
